@@ -50,10 +50,10 @@ structure HashOK : Prop where
     hashXor r.hash (some (hashPaths "deps" l)) = hashXor r'.hash (some (hashPaths "deps" l')) →
       r.hash = r'.hash ∧ hashPaths "deps" l = hashPaths "deps" l'
 
-/-- equal combined hashes: same rule hash, same build deps -/
+/-- equal combined hashes: same rule hash, same build deps as the statements print them (sorted) -/
 theorem same_hash (ok : HashOK) {nr1 nr2 : NinjaRule} {c1 c2 : Option (List String)}
     (hx : hashXor nr1.hash (depsHashOf c1) = hashXor nr2.hash (depsHashOf c2)) :
-    nr1.hash = nr2.hash ∧ c1 = c2 := by
+    nr1.hash = nr2.hash ∧ c1.map pathSort = c2.map pathSort := by
   cases c1 with
   | none =>
     cases c2 with
@@ -63,8 +63,20 @@ theorem same_hash (ok : HashOK) {nr1 nr2 : NinjaRule} {c1 c2 : Option (List Stri
     cases c2 with
     | none => exact absurd hx.symm (rule_hash_ne_xor nr2 _ _)
     | some l2 =>
-      obtain ⟨h1, h2⟩ := ok.xor nr1 nr2 l1 l2 hx
-      exact ⟨h1, by rw [ok.paths l1 l2 h2]⟩
+      obtain ⟨h1, h2⟩ := ok.xor nr1 nr2 (pathSort l1) (pathSort l2) hx
+      exact ⟨h1, by simp only [Option.map_some]; rw [ok.paths _ _ h2]⟩
+
+/-- the hash only depends on the sorted list -/
+theorem depsHashOf_congr {c1 c2 : Option (List String)} (h : c1.map pathSort = c2.map pathSort) :
+    depsHashOf c1 = depsHashOf c2 := by
+  cases c1 <;> cases c2 <;> simp_all [depsHashOf]
+
+/-- the statement only depends on the sorted list of order-only dependencies -/
+theorem buildFromRule_deps_congr (nr : NinjaRule) (ins : Option (List String)) (outs : List String)
+    {c1 c2 : Option (List String)} (h : c1.map pathSort = c2.map pathSort) :
+    buildFromRule nr ins outs c1 = buildFromRule nr ins outs c2 := by
+  unfold buildFromRule
+  rw [h]
 
 /-- the statement only depends on the rule's name and `always` -/
 theorem buildFromRule_congr {nr1 nr2 : NinjaRule} (hn : nr1.name = nr2.name) (ha : nr1.always = nr2.always)
@@ -83,9 +95,10 @@ theorem same_object_same_statement (ok : HashOK) {nr1 nr2 : NinjaRule} {c1 c2 : 
     buildFromRule nr1 (some [srcpath]) [obj] c1 = buildFromRule nr2 (some [srcpath]) [obj] c2 ∧
     (buildFromRule nr1 (some [srcpath]) [obj] c1).render = (buildFromRule nr2 (some [srcpath]) [obj] c2).render ∧
     compileOut nr1 c1 localDeps srcTag srcpath obj = compileOut nr2 c2 localDeps srcTag srcpath obj := by
-  obtain ⟨hh, rfl⟩ := same_hash ok hx
+  obtain ⟨hh, hcs⟩ := same_hash ok hx
   obtain ⟨hn, hc, hd, hg, hr, hrc, hp, ha⟩ := ok.rule nr1 nr2 hh
-  have hb := buildFromRule_congr hn ha (some [srcpath]) [obj] c1
+  have hb : buildFromRule nr1 (some [srcpath]) [obj] c1 = buildFromRule nr2 (some [srcpath]) [obj] c2 :=
+    (buildFromRule_congr hn ha (some [srcpath]) [obj] c1).trans (buildFromRule_deps_congr nr2 _ _ hcs)
   refine ⟨render_determined hn hc hd hg hr hrc hp, hb, by rw [hb], ?_⟩
   unfold compileOut
   rw [hb]
@@ -226,7 +239,9 @@ theorem shared_object_path_iff (st : Settings) (b1 a1 b2 a2 : Name) (rule1 rule2
 /-- **C07**: two compilations of the same source by shareable rules use the same object path iff the
     (named) ninja rules agree on every hashed field — name (which itself carries the hash of the
     unnamed rule), command, description, dependency-file setting, response file, pool, `always` —
-    and the combined order-only dependencies are identical. -/
+    and the combined order-only dependencies are identical as the statements print them (sorted): the order in
+    which the modules exporting them were resolved does not matter (laze's `fix:` for the finding
+    `deps_hash_order_matters_old` below). -/
 theorem same_object_iff (ok : HashOK) (st : Settings) (b1 a1 b2 a2 : Name) (rule1 rule2 : Rule)
     (nr1 nr2 : NinjaRule) (c1 c2 : Option (List String)) (out srcpath ext : String)
     (hs1 : rule1.shareable = true) (hs2 : rule2.shareable = true) (hext : pathExtension srcpath = some ext) :
@@ -234,14 +249,14 @@ theorem same_object_iff (ok : HashOK) (st : Settings) (b1 a1 b2 a2 : Name) (rule
         objectPath st b2 a2 rule2 nr2 (depsHashOf c2) out srcpath ↔
       (nr1.name = nr2.name ∧ nr1.command = nr2.command ∧ nr1.description = nr2.description ∧
        nr1.deps = nr2.deps ∧ nr1.rspfile = nr2.rspfile ∧ nr1.rspfileContent = nr2.rspfileContent ∧
-       nr1.pool = nr2.pool ∧ nr1.always = nr2.always) ∧ c1 = c2 := by
+       nr1.pool = nr2.pool ∧ nr1.always = nr2.always) ∧ c1.map pathSort = c2.map pathSort := by
   rw [shared_object_path_iff st b1 a1 b2 a2 rule1 rule2 nr1 nr2 _ _ out srcpath ext hs1 hs2 hext]
   constructor
   · intro hx
     obtain ⟨hh, hc⟩ := same_hash ok hx
     exact ⟨ok.rule nr1 nr2 hh, hc⟩
-  · rintro ⟨⟨hn, hc, hd, hg, hr, hrc, hp, ha⟩, rfl⟩
-    rw [hash_determined hn hc hd hg hr hrc hp ha]
+  · rintro ⟨⟨hn, hc, hd, hg, hr, hrc, hp, ha⟩, hcs⟩
+    rw [hash_determined hn hc hd hg hr hrc hp ha, depsHashOf_congr hcs]
 
 /-- and in that case the rule block, the compile statement and the extra statements coincide -/
 theorem same_object_single_statement (ok : HashOK) (st : Settings) (b1 a1 b2 a2 : Name) (rule1 rule2 : Rule)
@@ -504,7 +519,7 @@ theorem same_object_iff_model (st : Settings) (b1 a1 b2 a2 : Name) (rule1 rule2 
         objectPath st b2 a2 rule2 nr2 (depsHashOf c2) out srcpath ↔
       (nr1.name = nr2.name ∧ nr1.command = nr2.command ∧ nr1.description = nr2.description ∧
        nr1.deps = nr2.deps ∧ nr1.rspfile = nr2.rspfile ∧ nr1.rspfileContent = nr2.rspfileContent ∧
-       nr1.pool = nr2.pool ∧ nr1.always = nr2.always) ∧ c1 = c2 :=
+       nr1.pool = nr2.pool ∧ nr1.always = nr2.always) ∧ c1.map pathSort = c2.map pathSort :=
   same_object_iff hashOK st b1 a1 b2 a2 rule1 rule2 nr1 nr2 c1 c2 out srcpath ext hs1 hs2 hext
 
 /-! #### concrete data -/
@@ -539,6 +554,22 @@ private def nrB : NinjaRule := mkNinjaRule cc "" "gcc -O0 -c ${in} -o ${out}" no
 #guard objectPath {} "b" "x" ccN nrA none "o" "y/z.c" == objectPath {} "b" "x/y" ccN nrA none "o" "z.c"
 -- hypotheses of `nonshareable_private_inj` on concrete data
 #guard (pathWithExtension "src/hello.c" "o").startsWith "/" == false
+
+/-- FINDING (repaired in /repo by a `fix:` commit; the model follows the repaired code): the hash used to be taken over
+    the build-dep files in the order the exporting modules were resolved, while the statement prints them sorted. Two apps
+    selecting two global build deps in opposite orders then compiled the same source with identical statements into two
+    object paths. `hashPaths` distinguishes the two orders … -/
+theorem deps_hash_order_matters_old : hashPaths "deps" ["gg1.h", "gg2.h"] ≠ hashPaths "deps" ["gg2.h", "gg1.h"] := by
+  intro h
+  have := hashOK.paths _ _ h
+  simp at this
+
+/-- … while the statements are the same (tested by evaluation), and `depsHashOf` (sorted) no longer distinguishes them -/
+theorem deps_hash_order_irrelevant (l1 l2 : List String) (h : pathSort l1 = pathSort l2) :
+    depsHashOf (some l1) = depsHashOf (some l2) := by
+  simp [depsHashOf, h]
+#guard pathSort ["gg1.h", "gg2.h"] == pathSort ["gg2.h", "gg1.h"]
+#guard depsHashOf (some ["gg1.h", "gg2.h"]) == depsHashOf (some ["gg2.h", "gg1.h"])
 end Examples
 
 end Laze.C07
